@@ -615,8 +615,14 @@ func runORD09(p *Prog, r *RuleRun) {
 			switch ev {
 			case "bbolt.Open":
 				tag := pathTag(cx, args[0], f)
+				if phase == "call" && f.TS["open"] == "" {
+					f.TS["open"] = "called" // typestate: survives the merge with the "already open" path
+				}
 				if phase == "ok" {
 					f.Add("bbolt.Open(" + tag + "):ok")
+					if tag == "path:"+fileName {
+						f.TS["open"] = "final-ok"
+					}
 				}
 				if phase == "call" && tag == "path:"+fileName {
 					seenFinalOpen++
@@ -689,7 +695,7 @@ func runORD09(p *Prog, r *RuleRun) {
 				return
 			}
 			key := cx.Key(ret, "return")
-			ok := f.Must["bbolt.Open(path:"+fileName+"):ok"] || !f.May["bbolt.Open"]
+			ok := f.Must["bbolt.Open(path:"+fileName+"):ok"] || !f.May["bbolt.Open"] || f.TS["open"] == "final-ok" || f.TS["open"] == ""
 			r.Check(ok, key, posOf(p, ret), "success with the final DB open (or already open)", "ensureOpen succeeds without the final DB open; path: "+strings.Join(f.Trace, " > "))
 		}}
 	eng := newOrdEngine(p, spec)
